@@ -1,0 +1,8 @@
+//go:build !verif
+
+// Package vhook provides pause points for the verification harness in /verif.
+// Without the "verif" build tag every hook is an empty function.
+package vhook
+
+// At is a no-op unless the package is built with the "verif" tag.
+func At(string, ...interface{}) {}
